@@ -70,8 +70,46 @@ def run_family(mod, verif_seed, index, tier):
     cases = mod.gen(rng, tier, index)
     outs = []
     for c in cases:
-        outs.append(mod.run(c))
+        outs.append(guarded_run(mod, c))
     return cases, outs
+
+
+def _library_frame(tb):
+    """innermost traceback frame that lies in the imported lazy_dataset package"""
+    import lazy_dataset
+    root = os.path.dirname(os.path.realpath(lazy_dataset.__file__)) + os.sep
+    found = None
+    while tb is not None:
+        f = os.path.realpath(tb.tb_frame.f_code.co_filename)
+        if f.startswith(root):
+            found = tb.tb_frame.f_code.co_name
+        tb = tb.tb_next
+    return found
+
+
+def guarded_run(mod, case):
+    """mod.run(case); an exception that escapes the check's own model and
+    was raised inside the library is a violation ('the library raised where the
+    model expected an answer'), anything else is a harness error."""
+    try:
+        return mod.run(case)
+    except Exception as e:
+        where = _library_frame(e.__traceback__)
+        if where is None:
+            raise
+        msg = 'the library raised %s: %s in %s() where the check expected an answer' % (
+            type(e).__name__, str(e)[:200].replace('\n', ' '), where)
+        try:
+            from . import workload
+            workload.set_ctx(None)
+        except Exception:
+            pass
+        return {'violations': [{'cls': 'unexpected_exception',
+                                'sig': 'unexpected_exception:%s:%s' % (type(e).__name__, where),
+                                'msg': msg}],
+                'nontrivial': False, 'key': '', 'fired': {}, 'probes': {}, 'stats': {},
+                'digest': 'exc:' + type(e).__name__ + ':' + where, 'choices': None,
+                'sample': None}
 
 
 def _summarise(mod, acc, cases, outs, want_samples):
@@ -233,7 +271,7 @@ def _tup(x):
 # ---------------------------------------------------------------- minimise
 def violates(mod, case, cls):
     try:
-        o = mod.run(case)
+        o = guarded_run(mod, case)
     except Exception:
         return None
     for v in o.get('violations') or ():
